@@ -26,7 +26,7 @@ cp "$HERE/$TEST" "$WT/$PKG/$TEST"
 } > "$OVERLAY"
 cd "$WT" || exit 2
 LOG=$(mktemp /tmp/demo_m3_XXXXXX.log)
-go test -vet=off -count=1 -timeout 300s -overlay "$OVERLAY" -run 'TestVerifC07WriteInFlightAtFlush' -v ./$PKG/ > "$LOG" 2>&1
+go test -vet=off -count=1 -timeout 300s -overlay "$OVERLAY" -run TestVerifC07W -v ./$PKG/ > "$LOG" 2>&1
 rc=$?
 grep -E '^(=== RUN|--- |\s+zz_seed|\s+\S+_test.go|PASS|FAIL|ok|panic|#|\S+\.go:[0-9]+)' "$LOG" | tail -40
 rm -f "$LOG"
